@@ -207,11 +207,21 @@ theorem respects_xattr (sel : Bytes → Bool) (set : Option (Bytes × Bytes)) (r
   unfold xattrF standalone
   split <;> split <;> simp_all
 
-theorem respects_strip (o : StripOpts) : Respects (stripF o) := by
+theorem standalone_name (h : Bytes) (e : LEntry) : (standalone h e).name = e.name := by
+  unfold standalone; split <;> rfl
+
+theorem respects_strip (sel : Bytes → Bool) (o : StripOpts) : Respects (stripF sel o) := by
   intro h e
-  by_cases hc : (h.getD 3 0 != 0 && (e.kind == 0 || e.kind == 2)) = true
-  · simp only [standalone, hc, if_true, stripF, Option.map_some]
-  · simp only [standalone, hc, stripF, Option.map_some]; rfl
+  have hn := standalone_name h e
+  by_cases hs : sel e.name = true
+  · have hs1 : sel (standalone h e).name = true := by rw [hn]; exact hs
+    simp only [stripF, hs, hs1, Bool.not_true, Bool.false_eq_true, if_false, Option.map_some]
+    by_cases hc : (h.getD 3 0 != 0 && (e.kind == 0 || e.kind == 2)) = true
+    · simp only [standalone, hc, if_true]
+    · simp only [standalone, hc]; rfl
+  · have hs2 : sel e.name = false := by simpa using hs
+    have hs1 : sel (standalone h e).name = false := by rw [hn]; exact hs2
+    simp only [stripF, hs2, hs1, Bool.not_false, if_true, Option.map_some]
 
 -- ---------------------------------------------------------------- chmod algebra
 
@@ -230,23 +240,23 @@ theorem applyTo_idem_minus (t p x : Nat) : (Mode.minus t p).applyTo ((Mode.minus
   simp only [Nat.testBit_and]
   cases x.testBit i <;> cases (0xFFFF - targetApply t p).testBit i <;> rfl
 
-theorem ite3_bits (c1 c2 c4 : Prop) [Decidable c1] [Decidable c2] [Decidable c4] (b1 b2 b4 x i : Nat) :
-    let e := fun y => (if c1 then b1 else y &&& 0o700) ||| (if c2 then b2 else y &&& 0o070) ||| (if c4 then b4 else y &&& 0o007)
+theorem ite3_bits (c1 c2 c4 : Prop) [Decidable c1] [Decidable c2] [Decidable c4] (hi b1 b2 b4 x i : Nat) :
+    let e := fun y => (y &&& hi) ||| (if c1 then b1 else y &&& 0o700) ||| (if c2 then b2 else y &&& 0o070) ||| (if c4 then b4 else y &&& 0o007)
     (e (e x)).testBit i = (e x).testBit i := by
   intro e
   simp only [e]
   by_cases h1 : c1 <;> by_cases h2 : c2 <;> by_cases h4 : c4 <;>
     simp only [if_pos, if_neg, h1, h2, h4, not_false_eq_true, Nat.testBit_or, Nat.testBit_and] <;>
-    generalize x.testBit i = a <;>
+    generalize x.testBit i = a <;> generalize hi.testBit i = mh <;>
     generalize b1.testBit i = v1 <;> generalize b2.testBit i = v2 <;> generalize b4.testBit i = v4 <;>
     generalize (0o700 : Nat).testBit i = m1 <;> generalize (0o070 : Nat).testBit i = m2 <;>
     generalize (0o007 : Nat).testBit i = m4 <;>
-    cases a <;> cases v1 <;> cases v2 <;> cases v4 <;> cases m1 <;> cases m2 <;> cases m4 <;> rfl
+    cases a <;> cases mh <;> cases v1 <;> cases v2 <;> cases v4 <;> cases m1 <;> cases m2 <;> cases m4 <;> rfl
 
 theorem applyTo_idem_equal (t p x : Nat) : (Mode.equal t p).applyTo ((Mode.equal t p).applyTo x) = (Mode.equal t p).applyTo x := by
   simp only [Mode.applyTo]
   apply Nat.eq_of_testBit_eq; intro i
-  exact ite3_bits (t &&& 1 ≠ 0) (t &&& 2 ≠ 0) (t &&& 4 ≠ 0) (targetApply 1 p) (targetApply 2 p) (targetApply 4 p) x i
+  exact ite3_bits (t &&& 1 ≠ 0) (t &&& 2 ≠ 0) (t &&& 4 ≠ 0) (0xFFFF - 0o777) (targetApply 1 p) (targetApply 2 p) (targetApply 4 p) x i
 
 /-- **`chmod` is idempotent** for every mode clause and every mode value. -/
 theorem applyTo_idem (m : Mode) (x : Nat) : m.applyTo (m.applyTo x) = m.applyTo x := by
